@@ -497,6 +497,7 @@ func (vm *Thread) run() {
 	}()
 
 	for {
+		vm.verifBeforeInstruction()
 		instruction := bytecode.OpCode(vm.readByte())
 		switch instruction {
 		case bytecode.STOP_ITERATION:
